@@ -596,6 +596,10 @@ def gen_c08(seed, count):
                 cprops.append((pid, r.choice(vals)))
         for _ in range(r.choice([0, 0, 1])):
             cprops.append((38, (r.choice(words), r.choice(words))))
+        if r.random() < 0.08:
+            # a broker-assigned identifier around the client's storage limit of 64 bytes (client id left empty)
+            c = Case(rx=256, tx=r.choice([128, 256]), cid=b'')
+            cprops = [p_ for p_ in cprops if p_[0] != 18] + [(18, b'i' * r.choice([1, 23, 63, 64, 65, 66, 100, 150]))]
         ck = connack(0, 0, cprops)
         if len(ck) > c.cfg[0]:
             ck = connack()
